@@ -1,6 +1,8 @@
 """C01 - reads that follow an annotated isoform are assigned to compatible isoforms only."""
 import src.isoform_assignment as ia
 from src.polya_finder import PolyAInfo
+import src.long_read_profiles as lrp
+import src.long_read_assigner as lra
 
 from props import readfam
 from props.readfam import RT, CONSISTENT, LOCI, build_locus, positive_read, assign, intron_chain_compatible, introns_of, abs_le
@@ -157,6 +159,11 @@ def h_negative(locus, tid, kind, preset):
                 info = PolyAInfo(-1, p - 1, -1, -1)
         else:
             raise ValueError(kind)
+        if kind in ("shifted_donor", "novel_exon", "retained_intron"):
+            # the outer ends may overhang T's by a minor amount (a minor event next to the major contradiction)
+            ov_l, ov_r = g.int("left_overhang", 0, 40), g.int("right_overhang", 0, 40)
+            read = [(read[0][0] - ov_l, read[0][1])] + read[1:]
+            read = read[:-1] + [(read[-1][0], read[-1][1] + ov_r)]
         if kind != "distant_polya":
             info = None
             # the edit must stay inside the intron it modifies and create a structure that no isoform has
@@ -177,6 +184,31 @@ def h_negative(locus, tid, kind, preset):
                          OR([abs(rl - (ue[k_][1] - ue[k_][0])) < 2 * params.delta for ue in gi.all_isoforms_exons.values()])})
         g.check(t not in CONSISTENT, "a read far from every annotated isoform never gets a consistent assignment type", exclude=ex,
                 detail={"locus": locus, "isoform": tid, "edit": kind, "type": getattr(t, "name", str(t)), "reported": reported(ra)})
+    return fn
+
+
+def h_history(locus, tid, other, preset):
+    """two reads through ONE LongReadAssigner / profile constructor (as process_genic does for all reads of a locus): the second
+    read's assignment equals the one a fresh assigner gives"""
+    def fn(g):
+        params = readfam.matching_params(preset)
+        gi = build_locus(locus, params.delta)
+        d = params.delta
+        first = positive_read(g, gi.all_isoforms_exons[other], 0, len(gi.all_isoforms_exons[other]) - 1, 0, end_slack=0)
+        # the first read may start far upstream / end far downstream of the locus (unannotated sequence)
+        first = [(first[0][0] - g.int("first_read_upstream", 0, 5000), first[0][1])] + first[1:]
+        g.add(first[0][0] >= 1)
+        ex = gi.all_isoforms_exons[tid]
+        second = [tuple(x) for x in positive_read(g, ex, 0, len(ex) - 1, d)]
+        pc = lrp.CombinedProfileConstructor(gi, params)
+        assigner = lra.LongReadAssigner(gi, params)
+        none = PolyAInfo(-1, -1, -1, -1)
+        call(g, assigner.assign_to_isoform, "first", call(g, pc.construct_profiles, first, none, []))
+        ra = call(g, assigner.assign_to_isoform, "second", call(g, pc.construct_profiles, second, none, []))
+        _, rb = assign(g, gi, params, second)
+        det = {"after_another_read": [getattr(ra.assignment_type, "name", ""), reported(ra)], "alone": [getattr(rb.assignment_type, "name", ""), reported(rb)]}
+        g.check(ra.assignment_type == rb.assignment_type and reported(ra) == reported(rb),
+                "the assignment of a read does not depend on the reads assigned before it", detail=det)
     return fn
 
 
@@ -223,6 +255,11 @@ def instances(tier, seed):
                             continue        # on this locus the edited structure is another isoform's (truncated) structure
                     out.append(Instance("far[%s,%s,%s,%s]" % (locus, models[0][0], kind, preset), h_negative(locus, models[0][0], kind, preset), F,
                                         "locus %s, %s with one edit of symbolic size >= 400 bp" % (locus, models[0][0]), weight=15, budget_s=900))
+    for locus, tid, other in ([("alt_site_near", "T1", "T4"), ("skip", "T1", "T2")] if q else
+                              [(l, LOCI[l][0][0], LOCI[l][-1][0]) for l in loci if len(LOCI[l]) > 1]):
+        out.append(Instance("history[%s,%s after %s]" % (locus, tid, other), h_history(locus, tid, other, "default"), F,
+                            "locus %s: a read of %s (possibly starting far upstream) and then a read following %s through one assigner" % (locus, other, tid),
+                            weight=60, budget_s=1200))
     # parametric loci: the second isoform is placed by the solver (thorough: all kinds and sub-chains; quick: one kind, full chain)
     kinds = ["alt_sites", "alt_ends", "inner_exon_anywhere"]
     for ki, kind in enumerate(kinds):
